@@ -301,7 +301,14 @@ func (p c16) Run(w *mon.Worker, idx int) mon.Result {
 		full = []string{fmt.Sprintf("(.y[%d:] | length) as $n | .y", k), fmt.Sprintf(".zz_t = .y[%d:] | .y", k), fmt.Sprintf("select(.y[-%d:] | length > -1) | .y", k), fmt.Sprintf(".y[%d:] as $t | .y", k)}[r.IntN(4)]
 		prefix = []any{"y"}
 		writeBack = true
-		res.Tags = append(res.Tags, "slice_on_the_way")
+		if r.IntN(2) == 0 {
+			// the same with a re-ordered copy (sorted, reversed, de-duplicated, grouped) taken on the way
+			op := []string{"sort", "sort_by(.)", "reverse", "unique", "group_by(.)", "sort_by(kind)", "unique_by(.)", "shuffle"}[r.IntN(8)]
+			full = []string{"(.y | " + op + " | length) as $n | .y", ".zz_t = (.y | " + op + ") | .y", "select(.y | " + op + " | length > -1) | .y", "(.y | " + op + ") as $t | .y", "with(.y; " + op + ") | .y"}[r.IntN(5)]
+			res.Tags = append(res.Tags, "reordered_copy_on_the_way")
+		} else {
+			res.Tags = append(res.Tags, "slice_on_the_way")
+		}
 	} else if !writeBack && !pair && !f.seq && expr == "." && r.IntN(5) == 0 {
 		// a merge whose left operand is not there yet: the result (not assigned anywhere) is a value of its own
 		input = ref.MapV(ref.KV{K: "y", V: doc}, ref.KV{K: "keep", V: ref.IntV(1)})
